@@ -369,3 +369,20 @@ CHECKS["C05"]["rule"] += "; implementation-level imports with argument-carrying 
 CHECKS["C13"]["rule"] += "; directive expressions with unterminated literals and later quotes in the text"
 CHECKS["C15"]["rule"] += "; CLI cursor lists with equal offsets in a row and sentinels of 2^31 and above"
 CHECKS["C19"]["rule"] += "; every second invalid-setting case runs with --log-level OFF (the verdict must not depend on the verbosity)"
+
+# ---- additions of round 7
+CHECKS["C01"]["rule"] += ("; separator-like line comments made of 2-, 3- and 4-byte characters; every keyword near-miss (one edit, or the keyword plus "
+                         "any two-character tail) with an upper-case first letter inside a statement")
+CHECKS["C04"]["rule"] += "; separator-like line comments made of 2-, 3- and 4-byte characters (1..12 characters, 5 trailing-blank patterns, 3 places)"
+CHECKS["C06"]["rule"] += "; every line-break gap as a blank line, plain against three spellings with blanks / tabs on the blank line"
+CHECKS["C07"]["rule"] += "; toggle spellings with a tab or a form feed right behind the comment opener"
+CHECKS["C10"]["rule"] += ("; 1..14 nested forced breaks x 3 bracket shapes x 3 depths with the bracket clause: a line starting inside a bracket pair opened "
+                         "on an earlier line carries one continuation more than the opener's line, the closer's line as many")
+CHECKS["C11"]["rule"] += "; logical lines whose first token is a multi-line literal or comment with a wrappable tail"
+CHECKS["C16"]["rule"] += "; 6 KB of final-form text before one change, without BOM and behind a UTF-8 / UTF-16LE BOM"
+CHECKS["C17"]["rule"] += "; UTF-16LE / UTF-16BE configured without a BOM (round trips and malformed input)"
+
+# ---- additions of round 8
+CHECKS["C05"]["rule"] += "; labelled statements in the try, except and finally sections"
+CHECKS["C12"]["rule"] += "; closing runs of quotes that are 2 and 4 longer than the opening run"
+CHECKS["C19"]["rule"] += "; the nearest pasfmt.toml as a symbolic link to a regular file (valid / with an unknown key)"
